@@ -23,7 +23,12 @@ def _member_sig(b, o, depth=6):
     for _ in range(depth):
         k = op_const(o)
         if k is not None:
-            return ("fn", (k.get("res") or k.get("fn") or str(k)).rsplit("::", 1)[-1]) if "fn" in k else ("const", str(k))
+            if "fn" in k:
+                full_ = k.get("res") or k.get("fn") or str(k)
+                # a parser function of the crate shows by its short name; a foreign one (nom's `line_ending`, which knows no
+                # bare CR, bound to the name `eol`) by its full path
+                return ("fn", full_.rsplit("::", 1)[-1]) if k.get("loc") else ("foreign-fn", full_)
+            return ("const", str(k))
         q = op_place(o)
         d = b.single_def(q["l"]) if q is not None and not q["p"] else None
         if d is None:
@@ -71,6 +76,11 @@ def twin_parsers(ctx, F, prefix="parser::cmap_parser::"):
         ctx.ob("R-SIB", "twin-parsers|%s" % fn[:-1].rsplit("::", 1)[-1], sigs[0] == sigs[1], "%s and %s accept the same alternatives (%d)" % (fn, fn[:-1] + "1", len(sigs[0])), b1.where(),
                what="%s and %s no longer accept the same alternatives (only in the first: %s; only in the second: %s): what is white space after one token is not after another"
                     % (fn, fn[:-1] + "1", sorted(map(str, sigs[0] - sigs[1])), sorted(map(str, sigs[1] - sigs[0]))))
+    # the end-of-line member of the white-space parsers is the crate's own `eol` (CR LF, LF and a bare CR: ISO 32000-1 7.2.3)
+    foreign = sorted({str(m_) for fn_, b_ in names.items() if re.search(r"space[01]$", fn_) for c in b_.calls if (c.fn or "").endswith("branch::alt") and c.args
+                      for d_ in [b_.def_rv(c.args[0])] if d_ and d_[2] == "rv" and d_[3]["k"] == "agg" for m_ in (_member_sig(b_, o_) for o_ in d_[3]["ops"]) if m_[0] == "foreign-fn"})
+    ctx.ob("R-SIB", "whitespace-members-are-the-crates-own", not foreign, "the function members of the white-space parsers are crate-local (eol, comment)", "src/parser/cmap_parser.rs",
+           what="a white-space parser of the CMap grammar uses the foreign parser %s for the end of line: it does not accept every end-of-line marker the crate's `eol` does (a bare CR), so a CMap with such line ends is rejected" % foreign)
     ctx.floor("R-SIB", "zero-or-more / one-or-more parser twins in %s" % prefix, n, 2)
 
 
@@ -130,6 +140,12 @@ def run(ctx):
     gcl = F.with_closures(g)
     wa = [c for b in gcl for c in b.calls if re.search(r"num::<impl u32>::wrapping_add$", c.fn or "")]
     ctx.ob(R, "offset-applied|get", len(wa) == 1, "get computes code + offset for UTF16CodePoint", g.where(), what="get no longer adds the stored offset to the code")
+    # 2a. the interval map merges touching intervals whose values are *equal*: equality of targets is the structural one (derived),
+    # or two different multi-unit targets that merely end alike are merged and the earlier range takes the later one's prefix
+    eqs = F.fns("<BfRangeTarget as PartialEq>::eq")
+    derived = bool(eqs) and all(all(st.get("x") for bi, si, st in e_.stmts()) and all(e_.term(bi).get("x") for bi in range(e_.n) if e_.term(bi)["k"] in ("call", "switch")) for e_ in eqs)
+    ctx.ob(R, "target-equality-is-structural", derived, "PartialEq for BfRangeTarget is the derived (field by field) one", eqs[0].where() if eqs else "src/encodings/cmap.rs",
+           what="BfRangeTarget compares equal by a hand-written rule: rangemap merges adjacent ranges whose targets are 'equal', so two definitions that differ in what the rule ignores are merged into one and decode alike")
     # 3. precondition of the map
     put_precondition(ctx, F)
     twin_parsers(ctx, F)
